@@ -63,7 +63,7 @@ package rangeproof
 //@   nonlinear
 //@   requires k != nil && nSplit >= 0
 //@   ensures sign: err == nil ==> (sign == 1 || sign == 0 - 1) && nSplit <= 4
-//@   ensures copy: err == nil ==> result0 != nil && fresh(result0) && result0.sign == sign && result0.a == a && result0.index == index && result0.ld == ld && val(result0.k) == val(k) && result0.k != k && len(result0.cRep) == nSplit
+//@   ensures copy: err == nil ==> result0 != nil && fresh(result0) && result0.sign == sign && result0.a == a && result0.index == index && result0.ld == ld && result0.k != nil && val(result0.k) == val(k) && result0.k != k && len(result0.cRep) == nSplit
 //@   ensures exponent: err == nil ==> len(result0.mCorrect.Rhs) == 2 + nSplit && (sign == 1 ==> result0.mCorrect.Rhs[1].Power == 0 - a) && (sign == 0 - 1 ==> result0.mCorrect.Rhs[1].Power == a)
 //@   ensures lhs: err == nil ==> len(result0.mCorrect.Lhs) == 1 && val(result0.mCorrect.Lhs[0].Power) == 0 - sign * val(k)
 //@   ensures fail: err != nil ==> result0 == nil
@@ -89,7 +89,7 @@ package rangeproof
 //@   property C12 C08
 //@   requires p != nil && g != nil && g.Params != nil
 //@   ensures limits: err == nil ==> p.K != nil && p.Ld <= g.Params.Lm && (len(p.Cs) == 3 || len(p.Cs) == 4) && bitlen(val(p.K)) <= g.Params.Lm + 64 && okdescr(p)
-//@   ensures copy: err == nil ==> result0 != nil && result0.sign == p.Sign && result0.a == p.A && val(result0.k) == val(p.K) && result0.ld == p.Ld && result0.index == index && len(result0.cRep) == len(p.Cs)
+//@   ensures copy: err == nil ==> result0 != nil && result0.sign == p.Sign && result0.a == p.A && result0.k != nil && val(result0.k) == val(p.K) && result0.ld == p.Ld && result0.index == index && len(result0.cRep) == len(p.Cs)
 //@   ensures nowrap: err == nil ==> (p.Sign == 1 ==> result0.mCorrect.Rhs[1].Power == 0 - p.A) && (p.Sign == 0 - 1 ==> result0.mCorrect.Rhs[1].Power == p.A)
 //@   modifies nothing
 //@   mustfail canary: err != nil
@@ -111,13 +111,28 @@ package rangeproof
 //@   loop 0 invariant 0 <= $i && $i <= len(s.cRep) && forall j in 0..$i :: p.Cs[j] != nil && p.DResponses[j] != nil && p.VResponses[j] != nil && bitlen(val(p.Cs[j])) <= bitlen(val(g.N)) && bitlen(val(p.DResponses[j])) <= s.ld + g.Params.Lh + g.Params.Lstatzk + 1 && bitlen(val(p.VResponses[j])) <= g.Params.Lm + g.Params.Lh + g.Params.Lstatzk + 1
 //@   mustfail canary: !result
 
+//@ # what fixes the statement: sign, factor, bound, size parameter and the commitments to the squares (in this order) open the
+//@ # challenge contribution of a range proof on both sides
+//@ func (*ProofStructure).statementContributions
+//@   property C12 C08 C13
+//@   safety
+//@   requires s != nil && s.k != nil
+//@   ensures shape: len(result) == 4 + len(cs) && fresh(result) && result[0] != nil && result[1] != nil && result[2] != nil && result[3] != nil && fresh(result[0]) && fresh(result[1]) && fresh(result[2]) && fresh(result[3])
+//@   ensures statement: val(result[0]) == s.sign && val(result[1]) == s.a && val(result[2]) == val(s.k) && val(result[3]) == s.ld
+//@   ensures commitments: forall j in 4..4 + len(cs) :: result[j] == cs[j - 4]
+//@   modifies nothing
+
 //@ func (*ProofStructure).CommitmentsFromProof
 //@   property C12 C08
-//@   trusted string-keyed dynamic lookups through zkproof.BaseMerge / ProofMerge are not yet within the verified subset; the precondition lists what the callee chain dereferences
-//@   requires s != nil && p != nil && g != nil && g.N != nil && val(g.N) > 1 && challenge != nil && rpstruct(s, p) && 0 <= s.index && s.index < len(g.R)
+//@   nopanic off
+//@   requires s != nil && s.k != nil && p != nil && g != nil && g.N != nil && val(g.N) > 1 && challenge != nil && rpstruct(s, p) && 0 <= s.index && s.index < len(g.R)
 //@   requires units: forall i in 0..len(s.cRep) :: 0 < val(p.Cs[i]) && val(p.Cs[i]) < val(g.N)
-//@   ensures shape: len(result) == 1 + len(s.cRep) && fresh(result) && forall i in 0..len(result) :: result[i] != nil && fresh(result[i])
+//@   ensures shape: len(result) == 5 + 2 * len(s.cRep) && forall i in 0..len(result) :: result[i] != nil
+//@   ensures[C12] statement: val(result[0]) == s.sign && val(result[1]) == s.a && val(result[2]) == val(s.k) && val(result[3]) == s.ld && forall j in 4..4 + len(s.cRep) :: result[j] == p.Cs[j - 4]
 //@   modifies nothing
+//@   loop 0 invariant 0 <= $i && $i <= len(s.cRep) && len(contributions) == 5 + len(s.cRep) + $i && (forall j in 0..len(contributions) :: contributions[j] != nil)
+//@   loop 0 invariant val(contributions[0]) == s.sign && val(contributions[1]) == s.a && val(contributions[2]) == val(s.k) && val(contributions[3]) == s.ld
+//@   loop 0 invariant forall j in 4..4 + len(s.cRep) :: contributions[j] == p.Cs[j - 4]
 
 //@ # ---- prover side (C04: what a disclosure proof carries) ----
 //@ pred buildable(s, commit) := s != nil && s.k != nil && commit != nil && commit.v5 != nil && commit.v5Randomizer != nil && commit.m != nil && commit.mRandomizer != nil && len(commit.d) == len(commit.dRandomizers) && len(commit.v) == len(commit.vRandomizers) && (forall i in 0..len(commit.c) :: commit.c[i] != nil) && (forall i in 0..len(commit.d) :: commit.d[i] != nil && commit.dRandomizers[i] != nil) && (forall i in 0..len(commit.v) :: commit.v[i] != nil && commit.vRandomizers[i] != nil)
